@@ -117,9 +117,19 @@ def run_index_case(case, res, what, prop):
                         failures.append((f'caught-up-at-stop:{field}', dict(height=g, **_d(detail))))
                 except (world.ReaderBlocked, observe.ReadFailed) as e:
                     failures.append(('caught-up-at-stop:read-failed', dict(height=g, error=repr(e))))
-                if kind == 'restart':
+                if kind in ('restart', 'restart-legacy'):
                     m = w.machine
                     w.close(destroy=False)
+                    if kind == 'restart-legacy':
+                        # a database begun by an earlier release: its state record has no
+                        # utxo_count entry yet (the server counts the UTXOs when it finds none)
+                        import ast
+                        for path, store in m.stores.data.items():
+                            if path.endswith('utxo') and b'state' in store:
+                                st = ast.literal_eval(store[b'state'].decode())
+                                st.pop('utxo_count', None)
+                                store[b'state'] = repr(st).encode()
+                                res.count('legacy_state_records')
                     w = world.World(m, reorg_limit=case.get('limit', 200), activation=ACTIVATION,
                                     prefetch=case.get('prefetch', 100), chunk_size=case.get('chunk'),
                                     small_files=case.get('small_files', False))
@@ -197,7 +207,7 @@ def fixed_cases(tier):
         for fl in ('------', 'H-F-H-', 'FFFFFF', '-H--H-') if tier == 'quick' else \
                 [''.join(f) for f in itertools.product('-HF', repeat=6)][::3]:
             for g in range(0, 6):
-                for kind in ('grow', 'restart'):
+                for kind in ('grow', 'restart', 'restart-legacy'):
                     cases.append(dict(recipes=rs, flush=fl, prefetch=100, limit=200, stops=[(g, kind)]))
             for g1, g2 in ((1, 3), (2, 4), (3, 5), (0, 5)):
                 cases.append(dict(recipes=rs, flush=fl, prefetch=100, limit=200,
